@@ -56,8 +56,10 @@ theorem C21_accessor_typed (acc : Acc) (w : List Nat) (p : Nat) (h : p ∈ acces
     ∃ a, w[p]? = some a ∧ a ∈ acc.last :=
   access_typed acc w p h
 
-/-- The generated conversion `To<Lang>Node(child).(<Category>)` (or `T{child}`) fails only for a node
-whose type is outside the (expanded) selector; that never happens. -/
+/-- The generated conversion `To<Lang>Node(child).(<Category>)` (or `T{child}`) fails for a node whose
+type is outside the (expanded) selector; that never happens.  (A nil child is converted to `NilNode`,
+which the template makes a member of every category except one NAMED `TokenSet`; a grammar that declares
+`%interface TokenSet` itself is outside this model — finding C21-tokenset-interface.) -/
 def Panics (acc : Acc) (w : List Nat) : Prop :=
   ∃ p ∈ access acc w, ∀ a, w[p]? = some a → a ∉ acc.last
 
